@@ -55,7 +55,7 @@ var coreFiles = map[string]bool{
 }
 
 type stats struct {
-	Files, TimeSites, SyncImports, GoStmts, Selects, Recvs, Sends, Closes int
+	Files, TimeSites, SyncImports, GoStmts, Selects, Recvs, Sends, Closes, Yields int
 }
 
 func fail(format string, a ...interface{}) {
@@ -247,12 +247,14 @@ func rewriteFile(path, rel string, st *stats) ([]byte, bool) {
 	}
 	// sanity: the result must parse
 	if _, err := parser.ParseFile(token.NewFileSet(), path, src, 0); err != nil {
+		os.WriteFile("/tmp/wt/rewrite-failed.go", []byte(src), 0o644)
 		fail("%s: rewritten file does not parse: %v", rel, err)
 	}
 	return []byte(src), true
 }
 
 type concRewriter struct {
+	inFunc    int
 	fset      *token.FileSet
 	rel       string
 	core      bool
@@ -274,6 +276,7 @@ func sel(pkg, name string) ast.Expr {
 }
 
 func (r *concRewriter) file(f *ast.File) {
+	r.inFunc = 1 // every BlockStmt of a Go file is inside some function body
 	ast.Inspect(f, func(n ast.Node) bool {
 		switch x := n.(type) {
 		case *ast.BlockStmt:
@@ -298,9 +301,24 @@ func (r *concRewriter) file(f *ast.File) {
 	})
 }
 
+func (r *concRewriter) yield() ast.Stmt {
+	r.usedSched, r.changed = true, true
+	r.st.Yields++
+	return &ast.ExprStmt{X: &ast.CallExpr{Fun: sel("verifvsched", "Yield")}}
+}
+
 func (r *concRewriter) stmts(list []ast.Stmt) []ast.Stmt {
 	out := make([]ast.Stmt, 0, len(list))
 	for _, s := range list {
+		if r.core && r.inFunc > 0 {
+			// statement-granularity scheduling point (active only in scenarios that ask for it): makes
+			// interleavings between unsynchronised statements explorable, not just those at lock operations
+			switch s.(type) {
+			case *ast.DeclStmt, *ast.EmptyStmt, *ast.CaseClause, *ast.CommClause:
+			default:
+				out = append(out, r.yield())
+			}
+		}
 		if ls, ok := s.(*ast.LabeledStmt); ok {
 			if rs := r.stmt(ls.Stmt); rs != nil {
 				ls.Stmt = rs
